@@ -110,13 +110,13 @@ Definition pi_unmarshal (b : bytes) : res prefix_info :=
     if negb (at_ b 1 =? 4) then Err EOther else
     let value := skipn 2 b in
     let pl := at_ value 0 in
+    if 128 <? pl then Err EOther else             (* repaired: was accepted with Prefix = nil *)
     Ok (mkPI pl (bit_and (at_ value 1) 128) (bit_and (at_ value 1) 64)
              (be32_at value 2) (be32_at value 6)
              (ip_mask128 (sub value 14 16) pl))
   end.
 
-(* RouteInformation.unmarshal(b) updates *ri in place; on error the fields
-   assigned before the failing check stay assigned (the caller ignores the error). *)
+(* RouteInformation.unmarshal(b) updates *ri in place, after all checks (the caller ignores an error). *)
 Definition ri_len_ok (l pl : N) : bool :=
   if pl =? 0 then negb ((l <? 1) || (3 <? l))
   else if pl <? 65 then (l =? 2) || (l =? 3)
@@ -133,12 +133,11 @@ Definition ri_unmarshal (ri : route_info) (b : bytes) : res (route_info * bool) 
     let l := at_ b 1 in let pl := at_ b 2 in
     if negb (ri_len_ok l pl) then Ok (ri, false) else
     let prf := N.shiftr (N.land (at_ b 3) 24) 3 in
-    let ri1 := mkRI pl prf (be32_at b 4) (ri_set ri) (ri_prefix ri) in
-    if prf =? 2 then Ok (ri1, false)                      (* checkPreference: reserved *)
+    if prf =? 2 then Ok (ri, false)                       (* checkPreference: reserved; nothing assigned (repaired) *)
     else Ok (mkRI pl prf (be32_at b 4) true (ri_prefix_bytes b pl), true)
   end.
 
-(* RecursiveDNSServer.unmarshal(b): r.Lifetime assigned first; Servers appended *)
+(* RecursiveDNSServer.unmarshal(b): Length checked, then r.Lifetime assigned and Servers appended *)
 Fixpoint rd_servers_from (value : bytes) (start : nat) (count : nat) : list bytes :=
   match count with
   | O => []
@@ -152,7 +151,8 @@ Definition rd_unmarshal (r : rdnss) (b : bytes) : res (rdnss * bool) :=
     let lt := be32_at value 2 in
     let dividend := (at_ b 1 - 1) * 8 in         (* int arithmetic; b[1] >= 1 here *)
     let count := dividend / 16 in
-    if count =? 0 then Ok (mkRD lt (rd_servers r), false)
+    if negb (dividend mod 16 =? 0) then Ok (r, false)    (* even Length: errRDNSSBadServer (repaired: was dead code) *)
+    else if count =? 0 then Ok (r, false)                 (* errRDNSSNoServers; lifetime not yet assigned (repaired) *)
     else Ok (mkRD lt (rd_servers r ++ rd_servers_from value 6 (N.to_nat count)), true)
   end.
 
